@@ -316,7 +316,9 @@ theorem C13_inline_array_shape (items : List (Str × List Tok)) (sh : List Nat) 
     (2) `set_value` = `cast_value` on that node gives the array of the element casts with shape = the nesting
     dimensions, provided the declared dimension admits the shape; (3) `parse` on the one-line program returns
     exactly one parameter: the name, type, width/sign, dimension and unit written, and that array value.
-    (`hunit`: a unit is written only on int/float lines and is known; `hel`: the element casts succeed.) -/
+    (`hunit`: a unit is written only on int/float lines and is known; `hel`: the element casts succeed — discharged
+    for integer and boolean elements by `C13_array_int_elements`, `C13_array_bool_elements`; `C13_int_array_text`
+    is the instance without any hypothesis on the elements.) -/
 theorem C13_inline_array_text (tbl : List UnitRow) (k : Nat) (nm : Str) (a : Nat) (ty : TyD) (dims : Option (List DimD))
     (b c : Nat) (s : Str) (sh : List Nat) (toks : List Tok) (atoms : List Atom) (ds : List Dim)
     (unit cm : Option (Nat × Str))
@@ -358,6 +360,47 @@ example : Rendered "[[1,2],[3,4]]".toList [2, 2] [.bare "1".toList, .bare "2".to
     (by intro it h; simp at h; rcases h with rfl | rfl <;> exact Rendered.tok _ (t _ (by simp)))
   exact Rendered.arr [("[1,2]".toList, [.bare "1".toList, .bare "2".toList]), ("[3,4]".toList, [.bare "3".toList, .bare "4".toList])]
     [2] (by simp) (by intro it h; simp only [List.mem_cons, List.not_mem_nil, or_false] at h; rcases h with rfl | rfl; exact r1; exact r2)
+
+/-- **Element casts of integer arrays** (`np.array(json value, dtype=int)`).  An element written as JSON writes
+    integers (optional `-`, then `0` or digits without a leading zero) inside the 64-bit range is one array word
+    and is stored as the integer the digits denote. -/
+theorem C13_array_int_elements (its : List IntTok) (h : ∀ i ∈ its, i.Ok) :
+    (∀ i ∈ its, TokOk i.render) ∧
+    (its.map (fun i => Tok.bare i.render)).mapM (tokAtom .int) =
+      .ok (its.map (fun i => Atom.num ((i.value : Int) : Rat))) :=
+  ⟨fun i hi => intTok_tokOk i (h i hi),
+   mapM_ok_map (tokAtom .int) _ _ its (fun i hi => tokAtom_intTok i (h i hi))⟩
+
+example : (IntTok.mk true "30".toList).Ok ∧ (IntTok.mk true "30".toList).render = "-30".toList ∧
+    (IntTok.mk true "30".toList).value = -30 :=
+  ⟨⟨by decide, by decide, by decide, by decide⟩, by decide, by decide⟩
+
+/-- the same for boolean arrays: the words `true` / `false` -/
+theorem C13_array_bool_elements (bs : List Bool) :
+    (∀ b ∈ bs, TokOk (if b then "true".toList else "false".toList)) ∧
+    (bs.map (fun b => Tok.bare (if b then "true".toList else "false".toList))).mapM (tokAtom .bool) =
+      .ok (bs.map Atom.bool) :=
+  ⟨fun b _ => boolTok_tokOk b, mapM_ok_map (tokAtom .bool) _ _ bs (fun b _ => tokAtom_boolTok b)⟩
+
+/-- **Integer arrays of any nesting depth, from the text to the value** (no hypothesis on the element casts,
+    none on the characters): the one-line program `name [u]int[NN][dims] = [[i,…],[…]] [unit] [# comment]`, the
+    array a rectangular nested list of integer literals in the 64-bit range, parses to exactly one parameter
+    whose value is the array of those integers, in row-major order, with shape = the nesting dimensions. -/
+theorem C13_int_array_text (tbl : List UnitRow) (k : Nat) (nm : Str) (a : Nat) (uns : Bool) (w : Option IntW)
+    (dims : Option (List DimD)) (b c : Nat) (s : Str) (sh : List Nat) (its : List IntTok) (ds : List Dim)
+    (unit cm : Option (Nat × Str))
+    (hn : NameOk nm) (hd : DimsOk dims) (hu : ∀ n x, unit = some (n, x) → UnitOk x)
+    (htail : NoEsc (renderTail unit cm))
+    (hunit : ∀ n x, unit = some (n, x) → tbl.any (fun r => r.name = x) = true)
+    (hr : Rendered s sh (its.map (fun i => Tok.bare i.render))) (hsh : sh ≠ []) (hok : ∀ i ∈ its, i.Ok)
+    (hds : dimsValue dims = some ds) (hcd : checkDims ds sh = true) :
+    parseLines (mkParams tbl)
+        [List.replicate k ' ' ++ (definePrefix nm a (.int uns w) dims b c ++ (s ++ renderTail unit cm))] =
+      .ok [{ name := nm, ty := .int, info := (TyD.int uns w).info, dims := some ds, units := unit.map Prod.snd,
+             value := some (.array sh (its.map (fun i => Atom.num ((i.value : Int) : Rat)))), declared := false }] :=
+  (C13_inline_array_text tbl k nm a (.int uns w) dims b c s sh _ _ ds unit cm hn hd hu htail
+    (fun n x h => ⟨.inl rfl, hunit n x h⟩) hr hsh (rendered_int_plain its hok hr) hds
+    (C13_array_int_elements its hok).2 hcd).2.2
 
 /-- **Escaped quotes.**  A definition whose double-quoted value is written with `\\"` for every quote
     character of the intended text `s` (`s` itself free of backslash, newline and `$`): the lexer marks
